@@ -157,7 +157,12 @@ class NamespaceMixin(object):
            cxx_template -
         """
         # parse declaration to find out what it is.
-        fullast = declast.check_decl(decl, namespace=self)
+        # A block is transparent: parse in the scope which it groups so that
+        # constructors and destructors are recognized inside a block.
+        scope = self
+        while isinstance(scope, BlockNode):
+            scope = scope.parent
+        fullast = declast.check_decl(decl, namespace=scope)
         template_parameters = []
         if isinstance(fullast, declast.Template):
             # Create list of template parameter names
